@@ -6,7 +6,17 @@
 #include <stdlib.h>
 #include <string.h>
 
+#ifndef MAXARGS
 #define MAXARGS 64
+#endif
+
+/* Coverage measurement builds (tools/cov.py): a child that leaves through _exit() must write its counters itself. */
+#ifdef VERIF_GCOV
+extern void __gcov_dump(void);
+#define HARNESS_GCOV_DUMP() __gcov_dump()
+#else
+#define HARNESS_GCOV_DUMP() ((void)0)
+#endif
 
 struct arg { unsigned char *p; size_t n; };
 
